@@ -237,12 +237,16 @@ def grid_rows(chk: Check, n):
             kw = dict(alternative=alt, equal_var=ev, use_t=ut, alpha=rng.choice([0.01, 0.05, 0.1]),
                       ratio=rng.choice([1, 2, 0.5, 3.5]), power=rng.choice([0.5, 0.8, 0.9]))
             k_e, k_n = rng.randint(1, 3), rng.randint(0, 3)
-            effs = [sign * rng.uniform(0.02, 0.3) * (abs(mean) if (i // 4) % 2 == 0 else 1) for _ in range(k_e)]
+            # effects between 0.02 and 0.3 standard deviations: designs that need hundreds of observations or more (an
+            # effect of several standard deviations needs fewer observations than the smallest admissible sample —
+            # outside the property's quantifier; an earlier version of this generator scaled by the MEAN and raised a
+            # false alarm on the clean tree at seed 12)
+            effs = [sign * rng.uniform(0.02, 0.3) * math.sqrt(var) for _ in range(k_e)]
             if i % 5 == 3:
                 effs.append(effs[0])                       # a repeated value is one more row
             rel = (i // 4) % 2 == 1
-            if rel and mean < 0:
-                effs = [-e for e in effs]                  # relative effects of a negative mean: keep the direction
+            if rel:
+                effs = [e / mean for e in effs]            # as relative effects of the (possibly negative) mean
             ns = [int(rng.choice([50, 400, 5000, 10**5])) for _ in range(k_n)]
             if ns and i % 6 == 2:
                 ns.append(ns[0])
